@@ -288,7 +288,7 @@ def rule_iterators(facts, rep):
         n_bits = len(sgr.EFFECT_ORDER)
         A = eff_val("a")
         bad, n_paths = [], 0
-        for start in range(0, n_bits + 2):
+        for start in range(0, n_bits + 1):          # (an index beyond the number of effects is not a reachable state)
             def run(choices, start=start):
                 queries = []
 
@@ -338,7 +338,7 @@ def rule_iterators(facts, rep):
             except Unrecognised as ex:
                 bad.append(f"from index {start}: not evaluable: {ex}")
         rep.count(n_paths)
-        rep.check(not bad and n_paths >= 80, "iterators", b["path"], f"yields-each-present-{yields}-once-in-bit-order",
+        rep.check(not bad and n_paths >= 78, "iterators", b["path"], f"yields-each-present-{yields}-once-in-bit-order",
                   f"next() from index i tests bits i, i+1, .. in order, returns the first present one ({'its index' if yields == 'index' else 'as a one-bit set'}) "
                   f"leaving index just after it, and None (index >= {n_bits}) when there is none; {n_paths} paths evaluated. {bad[:2]}", loc(b))
     for meth, ty in (("iter", "EffectIter"), ("index_iter", "EffectIndexIter")):
